@@ -152,11 +152,16 @@ pub fn convert_events(evs: &[Event], st: &DefaultSettings<f64>, icones: &[ConeSp
                 let (dot_bz, dot_qx) = (f[21], f[22]);
                 let has_m = e.v.len() == 3 && icones.iter().map(|c| c.numel()).sum::<usize>() == e.v[1].len();
                 let mg = if has_m { iterate_margins(icones, &e.v[1], &e.v[2]) } else { [f64::INFINITY; 4] };
+                // complementarity measure over the barrier degree of the cone list (degrees by definition of the cones:
+                // nonnegative = dimension, second-order = 1, PSD(n) = n, exponential and power = 3, generalised power = len(alpha) + 1)
+                let degree: usize = icones.iter().map(|c| match c { ConeSpec::Zero(_) => 0, ConeSpec::Nonneg(k) => *k, ConeSpec::Soc(_) => 1,
+                    ConeSpec::Psd(n) => *n, ConeSpec::Exp | ConeSpec::Pow(_) => 3, ConeSpec::GenPow(al, _) => al.len() + 1 }).sum();
+                let mu_obs = (f[23] + f[19] * f[20]) / (degree as f64 + 1.0);
                 json!({"ev": "LoopTop", "iter": e.i[0], "e": {
                     "valid": true, "has_margins": has_m,
                     "smin_nn": fj(mg[0]), "smin_o": fj(mg[1]), "zmin_nn": fj(mg[2]), "zmin_o": fj(mg[3]),
                     "interior_floor": fj(-1e-13),
-                    "mu": fj(f[0]), "alpha": fj(f[1]), "alpha_zero": f[1] == 0.0, "sigma": fj(f[2]),
+                    "mu": fj(f[0]), "mu_obs": fj(mu_obs), "alpha": fj(f[1]), "alpha_zero": f[1] == 0.0, "sigma": fj(f[2]),
                     "cost_p": fj(f[3]), "cost_d": fj(f[4]), "res_p": fj(f[5]), "res_d": fj(f[6]),
                     "res_pinf": fj(f[7]), "res_dinf": fj(f[8]), "gap_abs": fj(f[9]), "gap_rel": fj(f[10]),
                     "kt": fj(f[11]),
